@@ -69,6 +69,92 @@ def check(ctx):
     schedules(ctx)
 
 
+def first_weekday_on_or_after(a0, start, wd_name, path):
+    """a0 == start + <days offset D>, D = I - W (+7 on some paths) with W = start.weekday() and I the number of the wanted weekday: the first such weekday on or
+    after the start iff D lies in 0..6 on every path.  -> ('ok', text) | ('bad', why) | None (not of this form).  Interval arithmetic over the path's own tests on
+    I - W; the numbers of the weekdays are those of a literal (MON, TUE, ...) table in calendar order, or unknown within 0..6."""
+    offs = [s_ for s_ in T.subterms(a0) if s_[0] == 'call' and s_[1][0] == 'ext' and s_[1][1].split('.')[-1] in ('Timedelta', 'DateOffset', 'timedelta')]
+    if len(offs) != 1:
+        return None
+    off = offs[0]
+    try:
+        base = T.t_sub(a0, off)
+    except Exception:
+        return None
+    ts_start = ('call', ('ext', 'pandas.Timestamp'), (start,), ())
+    if base not in (start, ts_start):
+        return None
+    D = dict(off[3]).get('days', off[2][0] if (off[2] and not off[3]) else None)
+    if D is None or set(dict(off[3])) - {'days'}:
+        return None
+    W = [s_ for s_ in T.subterms(D) if (s_[0] == 'call' and s_[1] in (('meth', 'weekday'),) and s_[2] and s_[2][0] in (start, ts_start)) or
+         (s_[0] == 'attr' and s_[1] in (start, ts_start) and s_[2] in ('dayofweek', 'day_of_week', 'weekday'))]
+    if not W:
+        return None
+    W = W[0]
+    names = ['MON', 'TUE', 'WED', 'THU', 'FRI', 'SAT', 'SUN']
+    I, imax = None, 6
+    for s_ in T.subterms(D):
+        if s_[0] == 'call' and s_[1] == ('meth', 'index') and len(s_[2]) == 2 and s_[2][0][0] in ('tuple', 'list') and s_[2][1] == wd_name:
+            tbl = [x_[1] if x_[0] == 'str' else None for x_ in s_[2][0][1]]
+            if tbl != names[:len(tbl)]:
+                return ('bad', 'the weekday numbers are taken from the table %s, which is not in calendar order (Monday = 0)' % tbl)
+            I, imax = s_, len(tbl) - 1
+    if I is None:
+        cands = [s_ for s_ in T.subterms(D) if s_[0] in ('attr', 'sub', 'call') and s_ != W and not any(x_ == W for x_ in T.subterms(s_)) and
+                 any(x_ == wd_name or x_ == ('var', 'weekday') for x_ in T.subterms(s_))]
+        cands = [c_ for c_ in cands if not any(c_ != o_ and any(x_ == c_ for x_ in T.subterms(o_)) for o_ in cands)]
+        if len(cands) != 1:
+            return None
+        I = cands[0]
+    X = T.t_sub(I, W)
+    try:
+        c = T.t_sub(D, X)
+    except Exception:
+        return None
+    if c[0] != 'num' or c[1].denominator != 1:
+        return None
+    lo, hi = -6, imax
+    for cnd, val, _ in path.conds:
+        if cnd[0] != 'cmp' or cnd[1] not in ('<', '<=', '==', '!='):
+            continue
+        try:
+            d_ = T.t_sub(cnd[2], cnd[3])
+        except Exception:
+            continue
+        for sign, dd in ((1, d_), (-1, T.t_neg(d_))):
+            try:
+                k_ = T.t_sub(dd, X)
+            except Exception:
+                continue
+            if k_[0] != 'num' or k_[1].denominator != 1:
+                continue
+            k_ = int(k_[1])
+            # the test reads  sign*(X + k) <op> 0  (dd = X + k when sign = 1, i.e. lhs - rhs;  dd = -(lhs - rhs) otherwise)
+            op = cnd[1]
+            if sign == 1:
+                # X + k < 0  /  X + k <= 0
+                if op == '<':
+                    lo, hi = (lo, min(hi, -k_ - 1)) if val else (max(lo, -k_), hi)
+                elif op == '<=':
+                    lo, hi = (lo, min(hi, -k_)) if val else (max(lo, -k_ + 1), hi)
+            else:
+                # -(lhs - rhs) = X + k  ->  lhs - rhs = -(X + k):  -(X + k) < 0  <=>  X + k > 0
+                if op == '<':
+                    lo, hi = (max(lo, -k_ + 1), hi) if val else (lo, min(hi, -k_))
+                elif op == '<=':
+                    lo, hi = (max(lo, -k_), hi) if val else (lo, min(hi, -k_ - 1))
+            break
+    dlo, dhi = lo + int(c[1]), hi + int(c[1])
+    if lo > hi:
+        return ('ok', 'path not taken')
+    if dlo >= 0 and dhi <= 6:
+        return ('ok', 'the start is moved ahead by %d..%d days on path [%s]' % (dlo, dhi, cond_str(path)[:60]))
+    return ('bad', 'on path [%s] the start is moved by %d..%d days: %s' % (
+        cond_str(path)[:80], dlo, dhi, 'a start that already falls on the weekday is pushed a whole week ahead' if dhi == 7 else
+        ('the first date can precede the start' if dlo < 0 else 'the first such weekday on or after the start is 0..6 days ahead')))
+
+
 def schedules(ctx):
     M = ctx.M
     from ..lib import one_shot_state
@@ -129,7 +215,19 @@ def schedules(ctx):
                         # a literal frequency string chosen per weekday: right iff it names that weekday
                         fr_ok = fr[1] == 'W-' + known[0]
                     ok = dates[0] == 'call' and dates[1] == ('ext', 'pandas.date_range') and a0 == st_ and a1 == en_ and fr_ok and not (set(k) - {'start', 'end', 'freq'})
-                    stepped = fr[0] == 'str' and fr[1].upper() in ('7D', 'W', '1W', '168H') or (fr[0] == 'call' and fr[1][0] == 'ext' and fr[1][1].endswith('Timedelta'))
+                    stepped = fr[0] == 'str' and fr[1].upper() in ('7D', 'W', '1W', '168H') or (fr[0] == 'call' and fr[1][0] == 'ext' and fr[1][1].endswith('Timedelta')) \
+                        or (fr[0] == 'call' and fr[1][0] == 'ext' and fr[1][1].split('.')[-1] in ('DateOffset', 'Week', 'timedelta') and
+                            (dict(fr[3]) in ({'weeks': num(1)}, {'days': num(7)}) or (not fr[3] and fr[1][1].endswith('Week') and fr[2] in ((), (num(1),)))))
+                    if not ok and dates[0] == 'call' and dates[1] == ('ext', 'pandas.date_range') and a1 == en_ and a0 is not None and a0 != st_ and stepped \
+                            and not (set(k) - {'start', 'end', 'freq'}):
+                        verdict = first_weekday_on_or_after(a0, st_, up, p0)
+                        if verdict is not None:
+                            if verdict[0] == 'ok':
+                                ctx.holds('C13.S1', "weekly dates = every 7 days from the first <weekday> on or after the start (%s)" % verdict[1], fn.site())
+                            else:
+                                ctx.violation('C13.S1', "weekly dates = pd.date_range(start, end, freq='W-<weekday>') over the unmodified range", fn.site(), verdict[1],
+                                              key='C13.S1|weekly|range')
+                            continue
                     if not ok and dates[0] == 'call' and dates[1] == ('ext', 'pandas.date_range') and a1 == en_ and a0 is not None and a0 != st_ \
                             and any(s_ == st_ for s_ in T.subterms(a0)) and stepped:
                         # stepping a week at a time from a first date computed out of the start (the first such weekday on or after it): the calendar arithmetic
